@@ -66,8 +66,9 @@ func collectClosure(funcLit *ast.FuncLit, pass *analysishelper.EnhancedPass, clo
 			return false
 
 		case *ast.Ident:
-			// Skip if node is not a variable
-			if node.Obj == nil || node.Obj.Kind != ast.Var {
+			// Skip if node is not a variable, or is the blank identifier (which has an object when it is
+			// defined by `:=`, but is never in a scope and can never be used, let alone captured)
+			if node.Obj == nil || node.Obj.Kind != ast.Var || node.Name == "_" {
 				return false
 			}
 
